@@ -6,3 +6,7 @@ export GOFLAGS=-mod=mod GOPROXY=off GOSUMDB=off GOTOOLCHAIN=local
 mkdir -p bin .work evidence replays
 (cd gosym && go build -o ../bin/gosym .)
 echo "gosym built"
+# validation of the encoder and of the harness-side models: native self-tests
+# (lexer/parser models against the generated ANTLR code) and the concrete
+# differential tests (executor vs native build on fixed inputs)
+./bin/gosym selftest || { echo "SELFTEST FAILED" >&2; exit 1; }
